@@ -21,4 +21,7 @@ VARIANTS = [
     V("freq-eq", "if self.node.scheduling in [Scheduling.FREQUENCY]:", "if self.node.scheduling == Scheduling.FREQUENCY:", expect="silent"),
     V("phase-branch-swap", "            if self.node.scheduling in [Scheduling.FREQUENCY]:\n                self._phase_scheduled += max(0, phase_last - phase_scheduled)\n            else:  # self.scheduling in [PHASE]\n                self._phase_scheduled = 0.0",
       "            if self.node.scheduling is Scheduling.PHASE:\n                self._phase_scheduled = 0.0\n            else:\n                self._phase_scheduled = max(phase_scheduled, phase_last)", expect="silent"),
+    V("generator-grid", "        ts_next = jnp.max(jnp.array([ts_end, ts_prev + 1 / rate]))", "        ts_next = jnp.max(jnp.array([ts_end, (i + 1) / rate]))", rule="C04.generator", file="rex/artificial.py"),
+    V("generator-no-spacing", "        ts_next = jnp.max(jnp.array([ts_end, ts_prev + 1 / rate]))", "        ts_next = ts_end", rule="C04.generator", file="rex/artificial.py"),
+    V("generator-maximum", "        ts_next = jnp.max(jnp.array([ts_end, ts_prev + 1 / rate]))", "        ts_next = jnp.maximum(ts_prev + 1 / rate, ts_end)", expect="silent", file="rex/artificial.py"),
 ]
